@@ -189,9 +189,15 @@ func newPool(n int) (*pool, error) {
 }
 
 func (p *pool) close() {
+	var wg sync.WaitGroup
 	for _, w := range p.workers {
 		if w != nil {
-			w.stop()
+			wg.Add(1)
+			go func(w *workerProc) {
+				defer wg.Done()
+				w.stop()
+			}(w)
 		}
 	}
+	wg.Wait()
 }
